@@ -159,10 +159,14 @@ def _pad_face_connections(
     n_facedim = len(da[facedim])
     faces = []
 
+    # the connections name the faces by the labels of the grid's face dimension
+    # (0..n-1 when it has no coordinate); in the arrays a face is found by position
+    face_labels = list(grid._ds[facedim].values)
+
     # Iterate over each face and pad accordingly
     for i in range(n_facedim):
         target_da = da_prepadded.isel({facedim: i})
-        connection_single = connections[facedim][i]
+        connection_single = connections[facedim][face_labels[i]]
         for axname in pad_axes:
             # get any connections relevant to the current axis, default to None.
             (left_connection, right_connection) = connection_single.get(
@@ -178,6 +182,7 @@ def _pad_face_connections(
                     if connection:
                         # apply face connection logic #
                         source_face, source_axis, reverse = connection
+                        source_face = face_labels.index(source_face)
 
                         # is the connection along the same axis or not
                         swap_axis = False
